@@ -1,6 +1,6 @@
 \* real section sizes (A = 8, header 16, directory 336), no cell ghost; one EDGE line per transition; -workers 1
 CONSTANTS NDev = 1 NPaths = 3 Kinds1 = {"tiff", "sbs"} MaxCycles = 2 MaxAppends = 2 MaxPacket = 2 Real = TRUE NKinds = 2
-  NScripts = 3 MaxFaultAt = 0 MaxDepth = 4 FIX_TIFF = 1 FIX_SBS = 1 FIX_META = 1 MaxFd = 5 Ghost = FALSE Export = TRUE
+  NScripts = 3 MaxFaultAt = 0 MaxDepth = 4 FIX_TIFF = 1 FIX_SBS = 1 FIX_META = 1 SetRunning = TRUE FIX_SET = 1 MaxFd = 5 Ghost = FALSE Export = TRUE
 SPECIFICATION Spec
 VIEW View
 INVARIANT TypeOK
